@@ -154,6 +154,16 @@ def gen_case(rng, big=False, cid=0):
     return {"id": cid, "wiki": wiki, "book": book, "cfg": cfg}
 
 
+def image_order(wiki):
+    """Every image title mentioned anywhere, existing files first: the order the API lists them."""
+    out = [i["title"] for i in wiki["images"]]
+    for p in wiki["pages"]:
+        for i in p["images"]:
+            if i not in out:
+                out.append(i)
+    return out
+
+
 # ----------------------------------------------------------------------------------- the wiki
 class SynthWiki:
     """Answers exactly the requests sapi.py issues (spec/WikiApi.tla is the written contract)."""
@@ -170,6 +180,7 @@ class SynthWiki:
             for r in p["revs"]:
                 self.byrev[r] = p
         self.userid = {n: 1000 + k for k, n in enumerate(USERS + BOTS)}
+        self.imgorder = image_order(wiki)
         self.requests = []       # (host, key) log, in arrival order
 
     # -- content ------------------------------------------------------------------------------
@@ -401,7 +412,7 @@ class SynthWiki:
             for t in plist:
                 if t in self.pages:
                     for i in self.imagelinks(t):
-                        entries.append((self.pageid[t], i.split(":", 1)[1].replace(" ", "_"), i))
+                        entries.append((self.pageid[t], "%04d" % self.imgorder.index(i), i))
             entries.sort(key=lambda e: (e[0], e[1]))
             win, qc = self._window(entries, int(params.get("imlimit", 10)), params.get("imcontinue"), "imcontinue", "images")
             for (pid, _, i) in win:
@@ -643,14 +654,23 @@ class Tracer:
                 sched.append("i:" + str(s))
         api = f.api
         sem = api.limit_fetch_semaphore
+        desc = {"local": None, "shared": None}
+        for path, lst in f.imagedescription_todo.items():
+            desc["shared" if path.startswith(SHARED_HOST) else "local"] = [x[0] for x in lst]
+        sems = api.api_request_limit
+        for url, a in f.api_cache.items():
+            if url.startswith(SHARED_HOST) and a.limit_fetch_semaphore is not None:
+                sems = a.limit_fetch_semaphore.counter
         return {"sched": sorted(sched),
                 "todoImg": list(f.imageinfo_todo),
                 "todoRev": [str(x) for x in f.revids_todo],
                 "todoPg": list(f.pages_todo),
-                "desc": sorted("%s" % k for k in f.imagedescription_todo),
+                "hasL": desc["local"] is not None, "descL": desc["local"] or [],
+                "hasS": desc["shared"] is not None, "descS": desc["shared"] or [],
                 "redir": sorted([k, v] for k, v in f.redirects.items()),
-                "semfree": sem.counter if sem is not None else 0,
-                "hsemfree": f.api_semaphore.counter,
+                "seml": sem.counter if sem is not None else 0,
+                "sems": sems,
+                "hsem": f.api_semaphore.counter,
                 "dp": bool(f.dispatch_event.is_set())}
 
     def flush(self, g):
@@ -903,6 +923,8 @@ def run_case(case, outdir, log_trace=True):
     old_stderr, old_stdout = sys.stderr, sys.stdout
     errf = open(stderr_path, "w")
     sys.stderr = sys.stdout = errf
+    import logging
+    logging.disable(logging.CRITICAL)
     tr.enabled = log_trace
     greenlet.settrace(tr.on_switch)
     try:
@@ -987,3 +1009,146 @@ def read_back(case, outdir, sw=None):
             iatom = (k + 1) if info.get("thumburl") == sw.thumb_url(img) and info.get("descriptionurl") == sw.desc_url(img) else UNKNOWN
         imgs.append({"file": fatom, "desc": datom, "info": iatom, "authors": authors_of(t)})
     return {"arts": arts, "imgs": imgs}
+
+
+# ----------------------------------------------------------------------------------- trace for TLC
+KIND = {"fetch_html": "FH", "html1": "H1", "fetch_used": "FU", "fetch_used_block": "UB",
+        "expand_templates_from_title": "ET", "expand_templates_from_revid": "ER",
+        "fetch_imageinfo": "II", "_download_image": "DL", "download": "GET",
+        "handle_new_basepath": "NB", "fetch_image_page": "IP", "get_image_edits": "IE"}
+
+
+def wiki_for_tla(wiki):
+    return {"filens": wiki["filens"],
+            "pages": [{"title": p["title"], "ns": p["ns"], "revs": [str(r) for r in p["revs"]],
+                       "redirect": p["redirect"], "uses": p["uses"], "images": p["images"],
+                       "users": p["users"], "bots": p["bots"], "anon": p["anon"]} for p in wiki["pages"]],
+            "images": [{"title": i["title"], "shared": i["shared"], "cats": i["cats"], "users": i["users"],
+                        "bots": i["bots"], "anon": i["anon"]} for i in wiki["images"]],
+            "imgorder": image_order(wiki)}
+
+
+def cfg_for_tla(case):
+    return {"wiki": wiki_for_tla(case["wiki"]),
+            "book": [{"title": a["title"], "rev": str(a["rev"]) if a["rev"] else ""} for a in case["book"]],
+            "reqlimit": case["cfg"]["reqlimit"], "reslimit": case["cfg"]["reslimit"],
+            "fetchimages": bool(case["cfg"]["fetch_images"]), "html": True}
+
+
+def to_trace(case, result):
+    """Project the recorded events onto the vocabulary of FetcherTrace.tla (dumb renaming only)."""
+    wiki = case["wiki"]
+    local_fns, shared_fns = nsname(wiki["local"], 6), nsname(wiki["shared"], 6)
+
+    def local_title(repo_title, host):
+        ns, _, name = repo_title.partition(":")
+        want = shared_fns if host == "shared" else local_fns
+        if ns == want:
+            for i in wiki["images"]:
+                if i["name"] == name and i["shared"] == (host == "shared"):
+                    return i["title"]
+        return "?" + repo_title
+
+    names = {}                 # item id -> (k, a, h)
+    html_parent = {}
+
+    def item(iid, kind, arg, parent=None):
+        k = KIND.get(kind, kind)
+        if k in ("FH", "FU", "UB"):
+            a, h = [arg[0]] + list(arg[1]), "local"
+        elif k == "H1":
+            pname = names[parent][1][0] if parent in names else "?"
+            a, h = [pname, arg[0]], "local"
+        elif k in ("ET", "ER"):
+            a, h = [arg[0]], "local"
+        elif k == "II":
+            a, h = list(arg[0]), "local"
+        elif k in ("DL", "GET"):
+            a, h = [arg[0]], ""
+        elif k == "NB":
+            a, h = [], ("shared" if arg[0].startswith(SHARED_HOST) else "local")
+        elif k == "IP":
+            a, h = [local_title(t, arg[1]) for t in arg[0]], arg[1]
+        elif k == "IE":
+            a, h = [local_title(arg[0], arg[1])], arg[1]
+        else:
+            a, h = [str(x) for x in arg], "?"
+        names[iid] = (k, a, h)
+        return [k, a, h]
+
+    out = []
+    init = {"ts": [], "rs": []}
+    prev_todo = []
+    for e in result["events"]:
+        sp, w, bl = [], [], []
+        for o in e["ops"]:
+            if o[0] == "spawn":
+                sp.append(item(o[1], o[2], o[3], parent=e["id"]))
+                if sp[-1][0] == "IP":
+                    bl.append(sp[-1][1])
+            elif o[0] == "wexp":
+                w.append("p:%s@%s" % (o[1], o[2]) if o[2] else "p:%s" % o[1])
+            elif o[0] == "wpages":
+                w.extend("dp:" + t for t in o[1])
+            elif o[0] == "db" and o[1] == "html":
+                w.append("h:" + o[2])
+            elif o[0] == "db" and o[1] == "imageinfo":
+                w.append("ii:" + o[2])
+            elif o[0] == "stored":
+                w.append("f:" + o[1])
+        st = e["st"]
+        if e["op"] == "init":
+            for s_ in sp:
+                if s_[0] == "FH" and s_[1][0] == "page":
+                    init["ts"] = s_[1][1:]
+                if s_[0] == "FH" and s_[1][0] == "oldid":
+                    init["rs"] = s_[1][1:]
+            prev_todo = list(st.get("todoImg", []))
+            continue
+        if e["op"] == "join":
+            out.append({"t": "join", "k": "J", "a": [], "h": "", "to": "", "w": [], "sp": [], "ord": [], "bl": [], "st": st})
+            continue
+        if e["id"] in names:
+            k, a, h = names[e["id"]]
+        elif e["kind"] == "download":
+            k, a, h = "GET", [e["arg"][0]], ""
+        elif e["kind"] == "dispatcher":
+            k, a, h = "D", [], ""
+        else:
+            k, a, h = e["kind"], [str(x) for x in e["arg"]], "?"
+        if k == "D":
+            if e["wait"] == "done" and not e["ops"]:
+                continue                       # the dispatcher greenlet being killed by run()
+            t, to = "dispatch", "event"
+        else:
+            t = "step"
+            to = {"net": "r", "hsem": "whsem", "done": "done", "other": "join"}.get(e["wait"], e["wait"])
+            if to.startswith("sem:"):
+                to = "wsem"
+        if k == "DL":
+            sp.append(["GET", a, ""])
+        todo = list(st.get("todoImg", []))
+        ord_ = todo[len(prev_todo):] if len(todo) >= len(prev_todo) and todo[:len(prev_todo)] == prev_todo else []
+        prev_todo = todo
+        out.append({"t": t, "k": k, "a": a, "h": h, "to": to, "w": sorted(w), "sp": sp, "ord": ord_, "bl": bl,
+                    "st": {x: st[x] for x in ("sched", "todoImg", "hasL", "descL", "hasS", "descS", "redir", "seml", "sems", "hsem", "dp")}})
+    view = None
+    if result.get("final"):
+        f = result["final"]
+        titles = [i["title"] for i in wiki["images"]]
+
+        def ta(x):
+            return "" if x == 0 else ("?" if x == UNKNOWN else str(x))
+
+        def ia(x, pre=""):
+            return "" if x == 0 else ("?" if x == UNKNOWN else pre + titles[x - 1])
+        view = {"arts": [{"text": ta(a["text"]), "authors": a["authors"]} for a in f["arts"]],
+                "imgs": [{"file": ia(i["file"]), "desc": ia(i["desc"], "d:"), "info": ia(i["info"]), "authors": i["authors"]}
+                         for i in f["imgs"]]}
+    else:
+        nobody = {"present": False, "names": [], "anon": 0}
+        view = {"arts": [{"text": "", "authors": nobody} for _ in case["book"]],
+                "imgs": [{"file": "", "desc": "", "info": "", "authors": nobody} for _ in wiki["images"]]}
+    status = "done" if result["status"] in ("done", "readfail") else "failed"
+    return {"id": case["id"], "cfg": cfg_for_tla(case), "init": init, "ev": out,
+            "final": {"status": status, "view": view}}
